@@ -11,3 +11,5 @@ Lemma members_lemma : members_ok gen_members = true.
 Proof. vm_compute. reflexivity. Qed.
 Lemma sel_lemma : sel_ok gen_sel = true.
 Proof. vm_compute. reflexivity. Qed.
+Lemma free_lemma : free_ok gen_free = true.
+Proof. vm_compute. reflexivity. Qed.
